@@ -46,6 +46,8 @@ def shards(tier, seed):
 	for i in range(nclass):
 		out.append(dict(name=f'classes-{i}', kind='classes', n=ncases, sub=i))
 	out.append(dict(name='long', kind='long', n=6 if tier == 'quick' else 40))
+	for i, (k, pf) in enumerate([(11, 'ATGAC'), (5, 'AT')] if tier == 'quick' else [(11, 'ATGAC'), (5, 'AT'), (21, 'ACG'), (32, 'GATC'), (1, 'A')]):
+		out.append(dict(name=f'blocks-{i}', kind='blocks', k=k, prefix=pf, top=21 if tier == 'quick' else 23))
 	out.append(dict(name='asan-classes', kind='classes', n=1200 if tier == 'quick' else 8000, sub=1000, sanitizer='asan'))
 	out.append(dict(name='asan-exh', kind='exh', part=0, nparts=40 if tier == 'quick' else 8, maxlen=6, alpha='ACGTN', prefixes=['A', 'AT', 'CG'], ks=[1, 2, 3], sanitizer='asan'))
 	for s_ in out:
@@ -103,7 +105,8 @@ class Checker:
 
 	@staticmethod
 	def _w(k, prefix, seqs, what):
-		return dict(k=k, prefix=prefix.decode(), seqs=[bytes(s).hex() for s in seqs][:5], seqs_repr=[repr(bytes(s))[:200] for s in seqs][:5], variant=what)
+		return dict(k=k, prefix=prefix.decode(), seqs=[bytes(s).hex() if len(s) <= 20000 else f'<{len(s)} bytes, sha256 {__import__("hashlib").sha256(bytes(s)).hexdigest()}: regenerated by replaying the shard>' for s in seqs][:5],
+		            seqs_repr=[repr(bytes(s))[:200] for s in seqs][:5], variant=what)
 
 	def check(self, k, prefix, seqs, variants='rotate', check_find=True, sample=False):
 		"""seqs: list[bytes]"""
@@ -207,6 +210,8 @@ def run_shard(sh, ctx):
 		_run_classes(sh, ctx, ch)
 	elif sh['kind'] == 'long':
 		_run_long(sh, ctx, ch)
+	elif sh['kind'] == 'blocks':
+		_run_blocks(sh, ctx, ch)
 
 
 def _run_exh(sh, ctx, ch):
@@ -329,9 +334,59 @@ def _run_long(sh, ctx, ch):
 		ch.check(k, prefix, seqs, variants='all' if i % 3 == 0 else 'rotate', check_find=False)
 
 
+def _run_blocks(sh, ctx, ch):
+	"""Chromosome-sized sequences (2-8 MiB) that are almost empty: one occurrence is planted at every offset around every
+	power-of-two position (2^10 .. 2^top) and around multiples of 2^20, on either strand. Any implementation that works through the
+	sequence in blocks, windows or buffers of such a size has its seams exactly there."""
+	rng = random.Random(f'C01-blocks-{ctx.seed}-{sh["name"]}')
+	k, prefix = sh['k'], sh['prefix'].encode()
+	tl = k + len(prefix)
+	comp = bytes.maketrans(b'ACGT', b'TGCA')
+	# filler made of letters that can form neither the prefix nor its reverse complement
+	cand = [c for c in (b'CG', b'AT', b'AG', b'CT', b'AC', b'GT', b'C', b'A', b'G', b'T') if not (set(prefix) <= set(c)) and not (set(prefix.translate(comp)) <= set(c))]
+	fill = cand[0]
+	top = sh['top']
+	bounds = sorted({1 << b for b in range(10, top + 1)} | {m << 20 for m in range(1, (1 << (top - 20)) + 1)} | {3 << 19})
+	n = bounds[-1] + 4 * tl + 7
+	offsets = list(range(-tl - 2, 3))
+	ctx.notes['exhaustive_scopes'] = [f'k={k} prefix={sh["prefix"]}: one occurrence at every offset {offsets[0]}..{offsets[-1]} from each of {len(bounds)} block boundaries up to 2^{top}, both strands']
+	base = bytearray(rng.choice(fill) for _ in range(4096)) * (n // 4096 + 1)
+	for oi, off in enumerate(offsets):
+		seq = bytearray(base[:n])
+		planted = 0
+		for bi, B in enumerate(bounds):
+			kmer = bytes(rng.choice(b'ACGT') for _ in range(k))
+			occ = prefix + kmer
+			if (bi + oi) % 2:
+				occ = occ.translate(comp)[::-1]         # the occurrence lies on the reverse strand
+			if rng.random() < 0.3:
+				occ = occ.lower()
+			pos = B + off
+			if pos < 0 or pos + tl > n:
+				continue
+			seq[pos:pos + tl] = occ
+			planted += 1
+		ctx.count('block_boundary_occurrences_planted', planted)
+		ctx.count('long_sequences')
+		ch.check(k, prefix, [bytes(seq)], variants='all' if oi % 7 == 0 else 'rotate', check_find=(oi % 5 == 0))
+	# the same through a FASTA file (one long record, line-wrapped)
+	from vf.oracles.fasta import write_fasta
+	from gambit.seq import SequenceFile
+	path = ctx.workdir / f'{sh["name"]}.fasta'
+	write_fasta(path, [bytes(seq)], width=70)
+	got = ch.gc.calc_file_signature(ch.kspec(k, prefix), SequenceFile(path, 'fasta'))
+	exp = S.signature(k, prefix, [bytes(seq)])
+	ctx.evals += 1
+	ctx.count('block_files')
+	if got.tolist() != exp:
+		missing = sorted(set(exp) - set(got.tolist()))
+		ctx.violation('sig-wrong', f'calc_file_signature on one {n}-nt record: {len(got)} k-mers, definition gives {len(exp)}; missing {missing[:5]}', dict(k=k, prefix=sh['prefix'], n=n))
+	path.unlink()
+
+
 def finalize(merged, tier, seed, inconclusive):
 	c = merged['counters']
-	need = ['calls:bytes/default', 'calls:str/set', 'calls:Seq/array', 'calls:bytearray/default', 'find_kmers_calls',
+	need = ['block_boundary_occurrences_planted', 'calls:bytes/default', 'calls:str/set', 'calls:Seq/array', 'calls:bytearray/default', 'find_kmers_calls',
 	        'cases_match_flush_with_end', 'cases_overlapping_matches', 'cases_with_dropped_nonACGT_kmer', 'cases_both_strands', 'failing_calls_raised']
 	for n in need:
 		if c.get(n, 0) == 0:
